@@ -372,4 +372,15 @@ theorem newCacheEntry_facts (m : Msg) (e : Entry) (h : newCacheEntry m = some e)
     · intro x hx
       exact extractEDE_code m.extra none (by intro a ha; cases ha) x hx
 
+/-! ### rejections keep only cookies -/
+
+theorem filter_cookie_of_all_ecs (os : List EOpt) (h : ∀ x ∈ os, x.code = codeECS) :
+    os.filter (fun x => x.code == codeCookie) = [] := by
+  rw [List.filter_eq_nil_iff]
+  intro x hx
+  simp [h x hx, codeECS, codeCookie]
+
+theorem stripECS_sub (os : List EOpt) : ∀ x ∈ stripECS os, x ∈ os := by
+  intro x hx; exact (List.mem_filter.mp hx).1
+
 end SdnsVerif.Lemmas.Edns
